@@ -351,7 +351,7 @@ def _run_shard(args):
         return path, None, f"coqc failed to start: {e}"
     if proc.returncode != 0:
         return path, None, (proc.stdout + proc.stderr)[-2000:]
-    flat = " ".join(proc.stdout.split())
+    flat = " ".join(proc.stdout.split()).replace("%nat", "")
     m = re.search(r"=\s*\[([0-9;\s]*)\](?:%\w+)?\s*:\s*list nat", flat)
     if not m:
         return path, None, "unparsable coqc output: " + flat[-500:]
